@@ -525,6 +525,11 @@ def corpus(tier):
     add('ptemps', PTEMPS)                      # prange / parallel blocks with many private temporaries (no memoryviews)
     for nm in ('alpha', 'beta', 'gamma'):      # same extern enum / struct / ctuple spelling in three modules
         add(nm, SAMEDECL)
+    # cdef classes bring string-source tree fragments (auto pickle, public attributes) whose descriptors share one name
+    # and hash by id(): with tracing code emitted their positions tie at (line, column, source name)
+    add('picktrace', '# cython: linetrace=True\ncdef class E:\n    cdef public int v\ncdef class F:\n    cdef public int w\n'
+                     'def f(x):\n    return x\n')
+    add('pickprofile', '# cython: profile=True\ncdef class G:\n    cdef public object o\n    def m(self):\n        return self.o\n')
     # positions with equal (line, column) in two source files inside one scope, with tracing code emitted
     files['inc_part.pxi'] = 'def from_inc(x):\n    return x + 1\nINC = 5\n'
     add('inctrace', '# cython: linetrace=True\ninclude "inc_part.pxi"\ndef top(x):\n    return from_inc(x) + INC\nTOP = 6\n')
